@@ -141,8 +141,9 @@ Definition opt_lexemes_eqb (a b : option (list lexeme)) : bool :=
 Definition agree_on (s : list N) : bool :=
   negb (in_quantifier s) || opt_lexemes_eqb (lexemes_lang s) (lexemes_syn s).
 
-(* ---------- the three places where today's lexers split a clean source differently ---------- *)
-(* (B) vhdl_lang does not know the replacement character ':' of based literals (LRM 15.10) *)
+(* ---------- where today's lexers split a clean source differently: one place is left (D) ---------- *)
+(* (B, repaired by commit bba3236, finding F40) vhdl_lang did not know the replacement character ':' of based
+   literals (LRM 15.10); the predicate is kept for the refutation of the old code *)
 Fixpoint has_colon_literal (s : list N) : bool :=
   match s with
   | a :: ((b :: c :: _) as r) => (int_char a && (b =? 58) && letter_or_digit c) || has_colon_literal r
@@ -164,18 +165,25 @@ Definition has_nonint_bitstring (s : list N) : bool :=
                                  end) ts
   | None => false
   end.
-(* (A) `assume_guarantee` and `restrict_guarantee` are reserved words of VHDL-2008 for vhdl_lang and
-   plain identifiers for vhdl_syntax: a following tick is read differently *)
+(* (A, repaired by commit 9360ea7, finding F42) `assume_guarantee` and `restrict_guarantee` were reserved words
+   of VHDL-2008 for vhdl_lang and plain identifiers for vhdl_syntax: a following tick was read differently *)
 Definition ASSUME_G : list N := [97;115;115;117;109;101;95;103;117;97;114;97;110;116;101;101].
 Definition RESTRICT_G : list N := [114;101;115;116;114;105;99;116;95;103;117;97;114;97;110;116;101;101].
+(* the keyword table of vhdl_syntax before commit 9360ea7 *)
+Definition kw2008_old : list (list N) :=
+  filter (fun w => negb (list_eqb w ASSUME_G || list_eqb w RESTRICT_G)) SynLexer.kw2008.
+Definition syn_result_kw_old (s : list N) : option (bool * list lexeme) :=
+  match SynLexer.token_stream kw2008_old s with
+  | Some ts => Some (syn_clean_of ts, syn_lexemes_of ts)
+  | None => None
+  end.
 Definition has_psl_word (s : list N) : bool :=
   let l := map to_lower s in contains ASSUME_G l || contains RESTRICT_G l.
 (* (D) a character literal holding the line break CR LF: vhdl_lang reads the normalised `'LF'`,
    vhdl_syntax sees two characters between the ticks *)
 Definition has_crlf_char (s : list N) : bool := contains [39; 13; 10; 39] s.
 
-Definition known_difference (s : list N) : bool :=
-  has_colon_literal s || has_psl_word s || has_crlf_char s.
+Definition known_difference (s : list N) : bool := has_crlf_char s.
 
 (* all strings of length <= k over an alphabet (for the finite-domain theorems) *)
 Fixpoint strings_exact (alpha : list N) (k : nat) : list (list N) :=
